@@ -80,8 +80,8 @@ Lemma dec_loop_app : forall ds r v, digits ds ->
   0 <= v -> dval ds v < 2 ^ 64 ->
   dec_loop (ds ++ r) v = (dval ds v, r).
 Proof.
-  induction ds as [|c ds IH]; intros r v Hd Hr Hv Hlt; simpl.
-  - destruct r as [|c r]; [reflexivity|]. now rewrite Hr.
+  induction ds as [|c ds IH]; intros r v Hd Hr Hv Hlt; cbn [app dec_loop].
+  - destruct r as [|c r]; [reflexivity|]. cbn [dec_loop]. now rewrite Hr.
   - unfold digits in Hd; simpl in Hd; apply andb_true_iff in Hd as [Hc Hd].
     rewrite Hc. pose proof (is_digit_val c Hc) as Hcv.
     assert (Hle : v * 10 + digit_val c <= dval ds (v * 10 + digit_val c)) by (apply dval_ge; [exact Hd | lia]).
@@ -98,15 +98,15 @@ Lemma dec_digits_spec : forall f n acc, (1 <= f)%nat -> (n < 2 ^ N.of_nat f)%N -
              (exists d t, ds = d :: t /\ (n <> 0%N -> d <> 48%N)).
 Proof.
   induction f as [|f IH]; intros n acc Hf Hn; [lia|].
-  simpl dec_digits.
+  cbn [dec_digits].
   assert (Hdig : is_digit (48 + n mod 10)%N = true).
-  { unfold is_digit. apply andb_true_iff; split; apply N.leb_le; [lia|].
-    pose proof (N.mod_upper_bound n 10 ltac:(lia)); lia. }
-  assert (Hdv : digit_val (48 + n mod 10)%N = Z.of_N (n mod 10)%N) by (unfold digit_val; lia).
+  { unfold is_digit. apply andb_true_iff; split; apply N.leb_le; [apply N.le_add_r|].
+    assert (Hm : (n mod 10 < 10)%N) by (apply N.mod_upper_bound; discriminate). clear - Hm. lia. }
+  assert (Hdv : digit_val (48 + n mod 10)%N = Z.of_N (n mod 10)%N) by (unfold digit_val; clear; lia).
   destruct (N.eqb_spec (n / 10) 0) as [Hq|Hq].
   - exists [(48 + n mod 10)%N]; repeat split.
-    + unfold digits; simpl; now rewrite Hdig.
-    + unfold dval; simpl; rewrite Hdv.
+    + unfold digits; cbn [forallb]; now rewrite Hdig.
+    + unfold dval; cbn [fold_left]; rewrite Hdv.
       assert (n = n mod 10)%N by (rewrite (N.div_mod n 10) at 1 by lia; rewrite Hq; lia). lia.
     + intros ->; reflexivity.
     + exists (48 + n mod 10)%N, []; split; [reflexivity|].
@@ -123,10 +123,10 @@ Proof.
     destruct (IH (n / 10)%N ((48 + n mod 10)%N :: acc) Hf1 Hn') as (ds & E & Hd & Hv & _ & (d & t & Edt & Hnz)).
     exists (ds ++ [(48 + n mod 10)%N]); repeat split.
     + now rewrite E, <- app_assoc.
-    + unfold digits in *; rewrite forallb_app, Hd; simpl; now rewrite Hdig.
-    + rewrite dval_app, Hv; unfold dval; simpl; rewrite Hdv.
+    + unfold digits in *; rewrite forallb_app, Hd; cbn [forallb]; now rewrite Hdig.
+    + rewrite dval_app, Hv; unfold dval; cbn [fold_left]; rewrite Hdv.
       rewrite (N.div_mod n 10) at 3 by lia. lia.
-    + intros ->; simpl in Hq; lia.
+    + intros ->; vm_compute in Hq; congruence.
     + exists d, (t ++ [(48 + n mod 10)%N]); split; [now rewrite Edt|].
       intros _; now apply Hnz.
 Qed.
@@ -154,22 +154,17 @@ Lemma dec_of_Z_spec : forall v,
 Proof.
   intros v; destruct v as [|p|p]; unfold dec_of_Z.
   - destruct (dec_of_N_spec 0) as (ds & E & Hd & Hv & H0 & Hnz).
-    exists [], ds; simpl; repeat split; try assumption; try (left; split; [lia | reflexivity]).
-    + now intros _; apply H0.
-    + destruct Hnz as (d & t & -> & _); exists d, t; split; [reflexivity | congruence].
+    exists [], ds. split; [exact E|]. split; [exact Hd|]. split; [exact Hv|].
+    split; [left; split; [lia | reflexivity]|]. split; [intros _; now apply H0|].
+    destruct Hnz as (d & t & -> & _); exists d, t; split; [reflexivity | congruence].
   - destruct (dec_of_N_spec (Z.to_N (Z.pos p))) as (ds & E & Hd & Hv & H0 & Hnz).
-    exists [], ds; simpl app; repeat split; try assumption.
-    + rewrite Hv; lia.
-    + left; split; [lia | reflexivity].
-    + discriminate.
-    + destruct Hnz as (d & t & -> & Hn); exists d, t; split; [reflexivity|]. intros _; apply Hn; lia.
+    exists [], ds. split; [exact E|]. split; [exact Hd|]. split; [rewrite Hv; lia|].
+    split; [left; split; [lia | reflexivity]|]. split; [discriminate|].
+    destruct Hnz as (d & t & -> & Hn); exists d, t; split; [reflexivity|]. intros _; apply Hn; lia.
   - destruct (dec_of_N_spec (N.pos p)) as (ds & E & Hd & Hv & H0 & Hnz).
-    exists [45%N], ds; repeat split; try assumption.
-    + simpl; now rewrite E.
-    + rewrite Hv; lia.
-    + right; split; [lia | reflexivity].
-    + discriminate.
-    + destruct Hnz as (d & t & -> & Hn); exists d, t; split; [reflexivity|]. intros _; apply Hn; lia.
+    exists [45%N], ds. split; [cbn [app]; now rewrite E|]. split; [exact Hd|]. split; [rewrite Hv; lia|].
+    split; [right; split; [lia | reflexivity]|]. split; [discriminate|].
+    destruct Hnz as (d & t & -> & Hn); exists d, t; split; [reflexivity|]. intros _; apply Hn; lia.
 Qed.
 
 (* ------------------------------------------------------------------ casts *)
@@ -202,20 +197,13 @@ Proof.
 Qed.
 
 Section Num.
-  Variables F32 F64 : Type.
-  Variable parse32 : bytes -> F32.
-  Variable parse64 : bytes -> F64.
-
-  Notation prim := (prim F32 F64).
-  Notation prim_load := (prim_load F32 F64 parse32 parse64).
-
   Lemma scan_digits_app : forall ds rest n dec, digits ds ->
     (match rest with [] => True | c :: _ => is_digit c = false /\ (c =? 46)%N = false end) ->
-    scan_digits F32 F64 (ds ++ rest) n dec = (n + length ds, dec, rest)%nat.
+    scan_digits (ds ++ rest) n dec = (n + length ds, dec, rest)%nat.
   Proof.
-    induction ds as [|c ds IH]; intros rest n dec Hd Hr; simpl.
+    induction ds as [|c ds IH]; intros rest n dec Hd Hr; cbn [app scan_digits length].
     - destruct rest as [|c rest]; [now rewrite Nat.add_0_r|].
-      destruct Hr as [H1 H2]; now rewrite H1, H2, Nat.add_0_r.
+      destruct Hr as [H1 H2]; cbn [scan_digits]; now rewrite H1, H2, Nat.add_0_r.
     - unfold digits in Hd; simpl in Hd; apply andb_true_iff in Hd as [Hc Hd].
       rewrite Hc, IH by assumption. f_equal; f_equal; lia.
   Qed.
@@ -223,15 +211,16 @@ Section Num.
   (* digits, a dot, digits *)
   Lemma scan_digits_mantissa : forall d frac rest, is_digit d = true -> digits frac ->
     (match rest with [] => True | c :: _ => is_digit c = false /\ (c =? 46)%N = false end) ->
-    exists n, scan_digits F32 F64 (d :: 46%N :: frac ++ rest) O false = (S n, true, rest).
+    exists n, scan_digits (d :: 46%N :: frac ++ rest) O false = (S n, true, rest).
   Proof.
-    intros d frac rest Hd Hf Hr. simpl. rewrite Hd. simpl.
+    intros d frac rest Hd Hf Hr. cbn [scan_digits]. rewrite Hd. cbn [scan_digits].
+    change (is_digit 46) with false. change (46 =? 46)%N with true. cbv iota.
     rewrite scan_digits_app by assumption. eexists; reflexivity.
   Qed.
 
-  Lemma sfx_loop_stop : forall rec fm r st, stopr r -> sfx_loop F32 F64 rec fm r st = Ok st r.
+  Lemma sfx_loop_stop : forall (F32 F64 : Type) rec fm r st, stopr r -> sfx_loop F32 F64 rec fm r st = Ok st r.
   Proof.
-    intros rec fm r st (c & t & -> & Hc). simpl.
+    intros F32 F64 rec fm r st (c & t & -> & Hc). cbn [sfx_loop].
     destruct (N.eqb_spec c 0); [reflexivity|].
     rewrite (stop_upper c Hc).
     stop_split Hc; try reflexivity; try congruence; destruct fm; reflexivity.
@@ -265,10 +254,12 @@ Section Num.
     - specialize (Hnz Hv0). apply N.eqb_neq in Hnz.
       assert (Hloop : forall rest, (rest = [] \/ rest = [76%N]) ->
                  dec_loop ((d :: t) ++ rest) 0 = (Z.abs v, rest)).
-      { intros rest Hrest. rewrite dec_loop_app; try assumption; try lia.
+      { intros rest Hrest. rewrite dec_loop_app.
         - now rewrite Hv.
+        - exact Hd.
         - destruct Hrest as [->| ->]; [exact I | reflexivity].
-        - rewrite Hv; lia. }
+        - lia.
+        - rewrite Hv; exact Hlt. }
       destruct Hsg as [[Hpos ->]|[Hneg ->]].
       + unfold parse_int. simpl app. rewrite (skip_ws_stop d _ Hws).
         unfold strip_sign. rewrite Hp, Hm. simpl orb. cbv iota. rewrite Hnz.
